@@ -31,6 +31,7 @@ package fsnotify
 //@ pred RingInv(w *inotify) := w.cookieIndex < 10 &&
 //@        (!dupCookie ==> forall(s, uint8, s < 10 && w.cookies[s].cookie != 0 ==> has(seenFrom, w.cookies[s].cookie) && w.cookies[s].path == lastFrom[w.cookies[s].cookie]))
 
+//@ lockorder shared.mu < inotify.cookiesMu
 //@ owned inotify.cookiesMu: inotify.cookies, inotify.cookieIndex
 //@ confined reader: inotify.cookies, inotify.cookieIndex
 
